@@ -191,3 +191,47 @@ def text_lemmas(Obligation):
                                 patterns=[z3.MultiPattern(ALLASCII(a, lo, hi), ALLASCII(a, l2, h2))])
     ax["ascii_pt"] = z3.ForAll([a, lo, hi, kq], Tx(hi), patterns=[z3.MultiPattern(ALLASCII(a, lo, hi), a[kq])])
     return obl, ax
+
+def fidx_le_lemma(Obligation):
+    """an occurrence at k bounds first_index_of from above"""
+    kq = z3.Int("kq")
+    L = lambda p_: z3.Implies(z3.And(p_ <= kq, kq < n, a[kq] == bv), FIDX(a, bv, p_, n) <= kq)
+    obl = [Obligation("lemma.first_index_of_le#base", [p >= n], L(p), use_axioms=False, kind="lemma"),
+           Obligation("lemma.first_index_of_le#step", [p < n, L(p + 1)], L(p), use_axioms=False, kind="lemma")]
+    ax = z3.ForAll([a, bv, p, n, kq], L(p), patterns=[z3.MultiPattern(FIDX(a, bv, p, n), a[kq])])
+    return obl, {"fidx_le": ax}
+
+def fidx_stable_lemma(Obligation):
+    """first_index_of does not depend on the upper bound once the octet has been found below it"""
+    n2 = z3.Int("n2")
+    L = lambda p_: z3.Implies(z3.And(FIDX(a, bv, p_, n) < n, n2 > FIDX(a, bv, p_, n)), FIDX(a, bv, p_, n2) == FIDX(a, bv, p_, n))
+    obl = [Obligation("lemma.first_index_of_stable#base", [p >= n], L(p), use_axioms=False, kind="lemma"),
+           Obligation("lemma.first_index_of_stable#step", [p < n, L(p + 1), z3.And(FIDX(a, bv, p + 1, n) >= p + 1)], L(p), use_axioms=False, kind="lemma")]
+    ax = z3.ForAll([a, bv, p, n, n2], L(p), patterns=[z3.MultiPattern(FIDX(a, bv, p, n), FIDX(a, bv, p, n2))])
+    return obl, {"fidx_stable": ax}
+
+def _apps_of(exprs, decl):
+    seen = set(); out = []; stack = list(exprs)
+    while stack:
+        x = stack.pop()
+        if x.get_id() in seen: continue
+        seen.add(x.get_id())
+        if z3.is_quantifier(x): continue            # ground terms only
+        if z3.is_app(x):
+            if x.decl().eq(decl): out.append(x)
+            stack.extend(x.children())
+    return out
+
+def fidx_instantiator(exprs):
+    """explicit instances of lemma first_index_of_stable for every pair of ground first_index_of terms over the same array and octet
+    (the start arguments may be arithmetically equal without being syntactically equal, which defeats trigger matching)"""
+    apps = _apps_of(exprs, FIDX)[:14]; out = []
+    for t in apps:      # lemmas first_index_of_hit and first_index_of_bounds at every ground term
+        a_, v_, p1, n1 = t.children()
+        out.append(z3.Implies(t < n1, a_[t] == v_)); out.append(z3.Implies(p1 <= n1, z3.And(t >= p1, t <= n1)))
+    for t1 in apps:
+        for t2 in apps:
+            if t1.get_id() == t2.get_id() or not (t1.arg(0).eq(t2.arg(0)) and t1.arg(1).eq(t2.arg(1))): continue
+            a_, v_, p1, n1 = t1.children(); p2, n2 = t2.arg(2), t2.arg(3)
+            out.append(z3.Implies(z3.And(p1 == p2, t1 < n1, n2 > t1), t2 == t1))
+    return out
